@@ -28,7 +28,7 @@ from ..recipes import nlpgen as NG
 from ..recipes import ref as R
 
 LEVEL = "exploration"
-BUDGET_S = {"quick": 90, "thorough": 2400}
+BUDGET_S = {"quick": 420, "thorough": 2400}
 N_PAIRS = {"quick": 10, "thorough": 190}
 KS = {"quick": [1, 10, 1100], "thorough": [1, 10, 1100, 5000]}
 
